@@ -35,6 +35,7 @@ def compose(scripts, cache_vals, limits):
     """Hand composition through the public API; the interpreter's own control
     residue is removed between scripts."""
     mi, ms, cl = limits
+    cache_vals = {k: v for k, v in cache_vals.items() if k != 'returned'}     # the marker is not an input
     try:
         tape, stack, cache = F.run_script(scripts[0], cache_vals, stack_max_items=mi, stack_max_item_size=ms,
                                           callstack_limit=cl)
@@ -85,6 +86,15 @@ def evaluate(scripts, cache_vals, limits, sentinel_ok):
                 fails.append(('compose/%s' % ('authorises-but-composition-does-not' if got else
                                               'rejects-but-composition-authorises'),
                               '%s got %r' % ([s.hex()[:60] for s in scripts], got)))
+            # a stale RETURN marker in the initial cache (e.g. the cache handed back by an earlier run_script) is not an input
+            if 'returned' not in cache_vals:
+                try:
+                    if _auth(scripts, {**cache_vals, 'returned': True}, limits) != got:
+                        fails.append(('marker/initial-cache-marker-changes-the-verdict', '%s got %r' % ([s.hex()[:60] for s in scripts], got)))
+                except BaseException as e:  # noqa
+                    if isinstance(e, (KeyboardInterrupt, SystemExit)):
+                        raise
+                    fails.append(('totality/raised-%s' % type(e).__name__, str(e)[:100]))
             # single-script API agrees
             if len(scripts) == 1:
                 try:
@@ -165,8 +175,6 @@ def check_case(case):
             raise ValueError('1..4 scripts')
         sentinel = None
     cache_vals = case.get('cache', {})
-    if 'returned' in cache_vals:
-        raise ValueError("'returned' is interpreter-owned")
     return evaluate(scripts, cache_vals, lim, sentinel)[0]
 
 
@@ -212,6 +220,12 @@ def script_tree(max_depth=3, tape_return=True):
                 return [I('OP_WRITE_CACHE', draw(st.sampled_from(KEYS)), draw(st.integers(0, 1)))]
             if r < 62:
                 return [I('OP_READ_CACHE', draw(st.sampled_from(KEYS)))]
+            if r < 67:
+                # evaluated code that returns: ends the evaluated code only, whatever construct encloses or follows the EVAL
+                code = draw(st.sampled_from([[I('OP_RETURN')], [I('OP_TRUE'), I('OP_RETURN'), I('OP_FALSE')],
+                                             [I('OP_TRUE'), ['if', [I('OP_RETURN')]], I('OP_TRUE')],
+                                             [['try', [I('OP_RETURN')], []]], [['push', b'j'], I('OP_RETURN')]]))
+                return [['push', R.encode(render.lower(code))], I('OP_EVAL')]
             return [draw(st.sampled_from(PLAIN))]
         return st.lists(node(), min_size=0, max_size=5).map(lambda ll: [x for l in ll for x in l])
     return seq(0, tape_return)
@@ -236,6 +250,8 @@ def cache_st(draw):
         c[draw(st.sampled_from(['extra', 'E', 'P']))] = draw(st.binary(max_size=4))
     if draw(st.integers(0, 3)) == 0:
         c[draw(st.sampled_from(KEYS))] = [draw(st.binary(max_size=4))]
+    if draw(st.integers(0, 7)) == 0:
+        c['returned'] = draw(st.sampled_from([True, False, 1, b'']))
     return c
 
 
@@ -377,7 +393,41 @@ def task_soup(ctx):
     hyp.drive(soup(), one, ctx.n(8000, 400000), ctx.seed + 2)
 
 
+def task_errors(ctx):
+    """every way an instruction can fail (interpreter, Python and libsodium exception types) somewhere in the list"""
+    from vt.props import c06
+
+    @st.composite
+    def case(draw):
+        n = draw(st.integers(1, 3))
+        bad = draw(st.lists(c06.typed(), min_size=1, max_size=2).map(b''.join))
+        pos = draw(st.integers(0, n - 1))
+        out = []
+        for i in range(n):
+            if i == pos:
+                out.append(bad)
+            else:
+                out.append(R.encode(render.lower(draw(script_tree(2, True)))) or b'\x01')
+        return out, bad, draw(cache_st()), draw(st.sampled_from([(1024, 1024, 128), (1024, 1024, 128), (8, 64, 8)]))
+
+    def one(t):
+        scripts, bad, cv, lim = t
+        env.pin_clock(1_700_000_000)
+        try:
+            F.run_script(bad, copy.deepcopy(cv))
+            ctx.count('failure-kind:none')
+        except BaseException as e:  # noqa
+            if isinstance(e, (KeyboardInterrupt, SystemExit)):
+                raise
+            ctx.count('failure-kind:%s.%s' % (type(e).__module__, type(e).__name__))
+        finally:
+            env.unpin_clock()
+        _one(ctx, scripts, cv, lim, None, {'check': 'auth', 'scripts': scripts, 'cache': cv, 'limits': list(lim)}, len(bad) >= 3)
+    hyp.drive(case(), one, ctx.n(6000, 300000), ctx.seed + 3)
+
+
 TASKS = {
+    'errors': (task_errors, 8, 16),
     'structured': (task_structured, 14, 16),
     'builders': (task_builders, 6, 16),
     'soup': (task_soup, 8, 16),
@@ -389,4 +439,7 @@ def guards(tier, c, evaluations, nnt):
     t, f = c.get('verdict:True', 0), c.get('verdict:False', 0)
     if t + f and t < 0.10 * (t + f):
         msgs.append('only %d of %d cases authorise' % (t, t + f))
+    kinds = [k for k in c if k.startswith('failure-kind:') and not k.endswith(':none')]
+    if len(kinds) < 6:
+        msgs.append('only %d distinct exception types exercised by the errors task: %s' % (len(kinds), kinds))
     return msgs
